@@ -111,3 +111,11 @@ Definition last_data_col (r : list bool) : nat := length (drop_while (fun b => b
 Definition final_dims (rs : list row) : nat * nat :=
   let t := trim_rows (expand_rows rs) in
   (length t, fold_right Nat.max 0%nat (map last_data_col t)).
+
+(* ---------- ODF <text:s text:c="N"/> (open_office/_shared.py _append_element_text) ---------- *)
+(* `int(raw)` is an oracle: None = ValueError (then count = 1); absent attribute = "1" *)
+Definition space_count (parsed : option Z) : Z :=
+  match parsed with
+  | Some c => if c >? 0 then c else 0
+  | None => 1
+  end.
